@@ -44,6 +44,7 @@ type basmProg struct {
 	Lbd         bool        // the label of line Epos is written before the entry directive
 	Gio         string      // machine-wide default iomode written in the bmdef line
 	AttFirst    bool        // which end of every ioatt pair is written first
+	Data        []int       // the ROM data words of every processor
 	Outs        [][2]uint64 // expected <<external output, value>> in order
 	AscOuts     [][2]uint64 // the stream of the as-coded interpreter (known deviations of the pinned tree)
 	Steps       int
@@ -125,12 +126,25 @@ func basmText(p basmProg) (src string, outMap []int, ok bool) {
 				fmt.Fprintf(&sb, "\tmov o%d, r%d\n", l.A, l.B)
 			case "recv":
 				fmt.Fprintf(&sb, "\tmov r%d, i0\n", l.A)
+			case "ldk":
+				fmt.Fprintf(&sb, "\tmov r%d, rom:d%d\n\tmov r%d, rom:[r%d]\n", l.B, l.T, l.A, l.B)
 			}
 		}
 		sb.WriteString("%endsection\n")
+		if len(p.Data) > 0 {
+			fmt.Fprintf(&sb, "%%section data%d .romdata\n", c)
+			for k, v := range p.Data {
+				fmt.Fprintf(&sb, "\td%d db 0x%02x\n", k, v)
+			}
+			sb.WriteString("%endsection\n")
+		}
 	}
 	for c := range p.Progs {
-		fmt.Fprintf(&sb, "%%meta cpdef cpu%d romcode:code%d, ramsize:8\n", c, c)
+		if len(p.Data) > 0 {
+			fmt.Fprintf(&sb, "%%meta cpdef cpu%d romcode:code%d, romdata:data%d, ramsize:8\n", c, c, c)
+		} else {
+			fmt.Fprintf(&sb, "%%meta cpdef cpu%d romcode:code%d, ramsize:8\n", c, c)
+		}
 	}
 	pair := func(name, a, b string) {
 		if p.AttFirst {
@@ -212,12 +226,17 @@ func basmRunCmd(path string) int {
 // genBasmPrograms runs TLC -simulate on BasmSem and returns the programs of the behaviours with
 // their expected output streams; ok is false (and the run marked inconclusive) when TLC fails.
 func genBasmPrograms(r *evid.Run, scratch string, rsize, len0, budget, ncp int, entryAny, dirAny, macroHeavy bool, n int, seed int64) (progs []basmProg, transitions int64, ok bool) {
+	return genBasmProgramsData(r, scratch, rsize, len0, budget, ncp, 0, entryAny, dirAny, macroHeavy, n, seed)
+}
+
+// genBasmProgramsData is genBasmPrograms for sources with a ROM data section of ndata words.
+func genBasmProgramsData(r *evid.Run, scratch string, rsize, len0, budget, ncp, ndata int, entryAny, dirAny, macroHeavy bool, n int, seed int64) (progs []basmProg, transitions int64, ok bool) {
 	nout := 2
-	dir := filepath.Join(scratch, fmt.Sprintf("g_%d_%d_%d_%v_%v_%v", rsize, len0, ncp, entryAny, dirAny, macroHeavy))
+	dir := filepath.Join(scratch, fmt.Sprintf("g_%d_%d_%d_%d_%v_%v_%v", rsize, len0, ncp, ndata, entryAny, dirAny, macroHeavy))
 	os.MkdirAll(dir, 0o755)
 	up := func(b bool) string { return strings.ToUpper(fmt.Sprint(b)) }
-	cfg := fmt.Sprintf("SPECIFICATION Spec\nCONSTANTS\n RSize = %d\n Len0 = %d\n Budget = %d\n NOut = %d\n NCP = %d\n EntryAnywhere = %s\n DirectiveAnywhere = %s\n MacroHeavy = %s\nINVARIANT TypeOK\nCHECK_DEADLOCK FALSE\n",
-		rsize, len0, budget, nout, ncp, up(entryAny), up(dirAny), up(macroHeavy))
+	cfg := fmt.Sprintf("SPECIFICATION Spec\nCONSTANTS\n RSize = %d\n Len0 = %d\n Budget = %d\n NOut = %d\n NCP = %d\n NData = %d\n EntryAnywhere = %s\n DirectiveAnywhere = %s\n MacroHeavy = %s\nINVARIANT TypeOK\nCHECK_DEADLOCK FALSE\n",
+		rsize, len0, budget, nout, ncp, ndata, up(entryAny), up(dirAny), up(macroHeavy))
 	res, err := tlc.Run(tlc.Options{SpecDir: specDir, Module: "BasmSem", CfgText: cfg, Workers: 1, Timeout: 20 * time.Minute,
 		Args: []string{"-simulate", fmt.Sprintf("file=%s/b,num=%d", dir, n), "-depth", strconv.Itoa(ncp*(len0+1) + budget + 2), "-seed", strconv.FormatInt(seed, 10)}})
 	if err != nil {
@@ -239,6 +258,11 @@ func genBasmPrograms(r *evid.Run, scratch string, rsize, len0, budget, ncp int, 
 		last := beh[len(beh)-1].Vars
 		p := basmProg{RSize: rsize, Entry: int(tlaval.Int(last["entry"])), Epos: int(tlaval.Int(last["epos"])), Lbd: tlaval.Bool(last["lbd"]),
 			Gio: tlaval.Str(last["gio"]), AttFirst: tlaval.Bool(last["attfirst"]), Steps: int(tlaval.Int(last["steps"]))}
+		for k := 0; k < ndata; k++ {
+			if v, ok := tlaval.Get(last["data"], int64(k)); ok {
+				p.Data = append(p.Data, int(tlaval.Int(v)))
+			}
+		}
 		complete := true
 		for _, pv := range tlaval.AsSeq(last["progs"]) {
 			var lines []basmLine
@@ -291,9 +315,21 @@ func runC05(r *evid.Run) {
 		!gen(16, 6, 60, 2, false, true, true, r.Pick(40, 400), r.Seed*7+7) {
 		return
 	}
+	// sources with ROM data sections
+	for i, a := range []struct{ rsize, ncp, n int }{{8, 1, r.Pick(60, 500)}, {16, 2, r.Pick(40, 300)}} {
+		ps, tr, ok := genBasmProgramsData(r, scratch, a.rsize, 8, 50, a.ncp, 3, false, i == 1, true, a.n, r.Seed*7+10+int64(i))
+		if !ok {
+			return
+		}
+		progs = append(progs, ps...)
+		transitions += tr
+	}
+	if false {
+		return
+	}
 	r.Set("states", int64(len(progs)))
 	r.Set("transitions", transitions)
-	var assembled, compared, values, withOutputs, skipped, twoCP int64
+	var assembled, compared, values, withOutputs, skipped, twoCP, narrow, withData int64
 	for _, p := range progs {
 		src, outMap, wired := basmText(p)
 		if !wired {
@@ -302,6 +338,12 @@ func runC05(r *evid.Run) {
 		}
 		ctx := map[string]interface{}{"source": src, "expected": p.Outs}
 		bm, err := assembleForC05(src)
+		if err != nil && len(p.Data) > 0 && strings.Contains(err.Error(), "word size is too small") {
+			// a ROM data byte does not fit the instruction word the program needs (fewer than 8 bits):
+			// the source cannot be fitted and is rejected with an error, which is what C16 asks for
+			narrow++
+			continue
+		}
 		if err != nil {
 			r.Violate("assemble-error:"+c05Class(p), fmt.Sprintf("the assembler rejects a well-formed source: %v", err), ctx)
 			continue
@@ -356,6 +398,14 @@ func runC05(r *evid.Run) {
 			continue
 		}
 		compared++
+		for _, prog := range p.Progs {
+			for _, l := range prog {
+				if l.Op == "ldk" {
+					withData++
+					break
+				}
+			}
+		}
 		if len(p.Progs) > 1 {
 			twoCP++
 		}
@@ -373,6 +423,8 @@ func runC05(r *evid.Run) {
 	r.Set("output_values_compared", values)
 	r.Set("programs_agreeing_with_outputs", withOutputs)
 	r.Set("two_processor_programs_agreeing", twoCP)
+	r.Set("sections_reading_rom_data_in_agreeing_programs", withData)
+	r.Set("data_sources_rejected_because_the_word_is_narrower_than_a_byte", narrow)
 	r.Set("programs_skipped_bond_used_at_one_end_only", skipped)
 	r.Set("evaluations", int64(len(progs)))
 }
